@@ -144,4 +144,30 @@ CHECKS = {
         "required_classes": {"kind:help": 0.3, "kind:version": 0.02, "help:after-invalid-ancestor-args": 0.01, "help:token-after-dd-is-data": 0.01},
         "assumptions": COMMON_ASSUMPTIONS,
     },
+    "C06": {
+        "tests": [{"name": "TestC06", "quick": 160000, "thorough": 3200000}],
+        "rule": "cases = apps with 1-3 containers (<= 2 options named o/opt, p/popt and <= 1 argument X) of the seven built-in types declared through the typed API (BoolOpt ... Floats64Arg) with a default "
+                "(incl. zero/empty), an environment list of 0-3 variables each unset / empty / valid / invalid (multi-valued: comma lists with blank padding), and 0-3 command-line values spelled "
+                "--opt=T / -o=T / -o T / -oT / --opt T / bare flag (options under [OPTIONS] or one optional repetition per option) or positionally (argument under [X...] or [-- X...]); "
+                "oracle: the statement itself with strconv as validity judge - command-line values if any (multi: exactly those, single: last), else first non-empty valid variable, else default; "
+                "non-trivial = an accepted case with a container for which a command-line value or a non-empty variable competes with another source; distinct by full case",
+        "required_classes": {"source:cli": 0.1, "source:env": 0.05, "source:default": 0.05, "container:multi-valued": 0.1},
+        "assumptions": COMMON_ASSUMPTIONS + ["F9 (invalid env list wipes a multi-valued default) is a recorded known finding, attributed by its exact case class and only when the observed value is empty"],
+    },
+    "C13": {
+        "tests": [{"name": "TestC13", "quick": 160000, "thorough": 3200000}],
+        "rule": "cases = one container of one of the seven built-in types x {option via --opt=T, -o=T, -oT, separate forms (non-dash T); argument} x {command line, environment (single: raw, multi: comma list)}; "
+                "tokens T from a pool of ~70 numeric/boolean edge literals, a numeric-shape regex generator and short arbitrary strings; oracle: differential against strconv.ParseInt(s,10,64) / ParseFloat(s,64) / ParseBool "
+                "(multi-valued env items after TrimSpace): accepted iff strconv accepts, bound value equal (floats by bit pattern), an unparsable command-line token => usage error and Action not run, strings byte-identical; "
+                "non-trivial = a token strconv rejects, or accepts with a value whose canonical formatting differs from the token; distinct by full case",
+        "required_classes": {"token:strconv-rejects": 0.05, "token:non-canonical-but-valid": 0.05, "route:environment": 0.03, "route:argument": 0.1, "route:option": 0.1, "outcome:usage-error-unparsable-token": 0.03},
+        "assumptions": COMMON_ASSUMPTIONS + ["int is 64 bit on the build platform"],
+    },
+    "C15": {
+        "tests": [{"name": "TestC15", "quick": 160000, "thorough": 3200000}],
+        "rule": "generator of C06 with a SetByUser pointer (initially false) on every container; oracle: after a successful parse the flag is true iff the generated command line holds >= 1 value for that container; "
+                "non-trivial = accepted case with a container whose environment list has a non-empty variable (command line absent or present); distinct by full case",
+        "required_classes": {"env-present-cli-absent": 0.05, "env-and-cli-present": 0.05, "kind:argument": 0.1, "kind:option": 0.1},
+        "assumptions": COMMON_ASSUMPTIONS,
+    },
 }
